@@ -90,4 +90,47 @@ TEXTS = {
         'note': ('Float32-vs-real rounding envelope not proved. Axioms: the standard Reals axioms via Flocq '
                  '(sig_forall_dec, sig_not_dec, functional_extensionality_dep, classic).'),
     },
+    'C03': {
+        'level': ('Theorems for ALL configs/operands/graphs: the REGENERATED decision function maps each of the three '
+                  'modes to the documented per-operand transformation (static: quantize activations in, dequantize out, '
+                  'constants in place; dynamic: only constants in place; weight-only: constants behind a DEQUANTIZE) and '
+                  'every policy-accepted config is in one of them (finite, vm_compute); ops resolved to no-quantize and '
+                  'non-float/ignored operands plan NO_QUANTIZE; one performer step retypes exactly one tensor to the '
+                  'integer dtype of the configured width, an inserted QUANTIZE/DEQUANTIZE converts between the dtypes of '
+                  'its neighbours, and only the transformed tensor\'s buffer can change. Tied by correspondences P, I, T/E; '
+                  'a per-operand dtype oracle derived from the recipe resolution runs on every returned model.'),
+        'note': ('Composition through the instruction generator (horizontal grouping, DQ/Q elimination, requantize) is '
+                 'validated by correspondence + oracle, not proved. Axioms: none.'),
+    },
+    'C04': {
+        'level': ('Theorems on the plan model with parameters as provenance terms (all models, configs, stores): every '
+                  'tensor gets the reference min/max formula of ITS OWN statistics under the right config; same-scale ops '
+                  'share the operand\'s parameters and propagate its statistics; concatenation operands share the result\'s; '
+                  'bias = Bias(input, weight); softmax/logistic/tanh get the kernel\'s fixed range (literals regenerated and '
+                  'pinned); per-channel only under a CHANNELWISE weight config on the op\'s own dimension; reference '
+                  'parameters have positive scale and in-range zero point (Reals). Correspondence P evaluates every term with '
+                  'the library\'s numeric functions and requires == with the attached parameters; an independent float64 '
+                  'oracle re-derives parameters from statistics.'),
+        'note': ('Numeric clause on ideal arithmetic; float32 implementation tied bit-exactly by correspondence A. '
+                 'Axioms: Reals axioms via Flocq for C04_reference_parameters_wellformed only.'),
+    },
+    'C05': {
+        'level': ('Theorems: int4 packing round-trips for lists of EVERY length (low nibble first, zero-padded odd tail, '
+                  '(n+1)/2 bytes, bytes in 0..255); every element of a constant quantized with parameters from its own '
+                  'range decodes within HALF a step, symmetric and asymmetric, in exact arithmetic; bias = '
+                  'round-half-even(b/s) unless saturating; the float16 cast is IEEE round-to-nearest-even to binary16 '
+                  '(Flocq binary_normalize_correct). The float32 code is the bit-exact model of C17 (correspondence A incl. '
+                  '_pack_data and astype(float16)); interface E compares the bytes of every rewritten buffer; an '
+                  'independent decoder checks every rewritten constant of every returned model.'),
+        'note': ('Float32-vs-real envelope not proved (oracle slack stated). Axioms: Reals axioms via Flocq.'),
+    },
+    'C15': {
+        'level': ('Theorems: the REGENERATED pairwise compatibility predicate of the buffer-sharing check guarantees that '
+                  'two users of one constant either both keep float bytes or both rewrite them with equal parameters; a '
+                  'write sets bytes, dtype and parameter id together and touches no other buffer; a second write with the '
+                  'same parameters is idempotent. The group loop is tied by correspondence P, the pipeline by I/T/E; an '
+                  'oracle decodes every shared buffer of every returned model against all tensors referencing it.'),
+        'note': ('Global statement (all tensors on a buffer agree after the whole run) is validated by the oracle, '
+                 'not proved. Axioms: none.'),
+    },
 }
